@@ -294,14 +294,14 @@ func (g *pegGrammar) parseNode(x ast.Expr, r *pegRule) (*pegNode, error) {
 // ---- per-action facts (from the effect pass over the action functions) ----------------------
 
 type actionFacts struct {
-	Emits      bool     // writes parser data (code buffer, stacks, flags)
-	Aborts     bool     // records a parse error (p.addErr): the whole parse fails, emitted code never runs
-	FlagWrites []string // RollConfig fields assigned
-	Ops        []string // opcodes emitted directly (constant first argument of AddOp / WriteCode), in source order
-	Calls      []string // ParserData methods called, in source order
-	ReadsFlag  string   // for predicates of the form `return [!]c.data.Config.X`
-	FlagNeg    bool
-	ReturnsFalse bool   // the function may return the constant false (actions: means "fail")
+	Emits        bool     // writes parser data (code buffer, stacks, flags)
+	Aborts       bool     // records a parse error (p.addErr): the whole parse fails, emitted code never runs
+	FlagWrites   []string // RollConfig fields assigned
+	Ops          []string // opcodes emitted directly (constant first argument of AddOp / WriteCode), in source order
+	Calls        []string // ParserData methods called, in source order
+	ReadsFlag    string   // for predicates of the form `return [!]c.data.Config.X`
+	FlagNeg      bool
+	ReturnsFalse bool // the function may return the constant false (actions: means "fail")
 }
 
 func (e *Engine) actionFactsOf(fn string) *actionFacts {
